@@ -20,6 +20,7 @@ import (
 	"sync"
 	"sync/atomic"
 
+	tmproto "github.com/tendermint/tendermint/proto/tendermint/types"
 	"github.com/tendermint/tendermint/types"
 
 	"verif/verdict"
@@ -37,18 +38,35 @@ type replayRef struct {
 
 func selfTest(c *verdict.Ctx) bool {
 	// the byte accounting of the oracle (documented rule: size of the txs as
-	// encoded in the block's Data message) against the protobuf encoder
-	for _, n := range []int{0, 1, 2, 126, 127, 128, 129, 300, 16383, 16384} {
-		if got := types.ComputeProtoSizeForTxs([]types.Tx{make([]byte, n)}); got != protoSize(n) {
-			c.HarnessError("protoSize(%d)=%d but the protobuf encoder says %d", n, protoSize(n), got)
+	// encoded in the block's Data message) against the protobuf encoder itself;
+	// the repository's own size function is then compared with that encoding too:
+	// it decides how much a reap returns, so a disagreement is a finding, not a harness error
+	enc := func(txs ...[]byte) int64 {
+		d := tmproto.Data{Txs: txs}
+		b, err := d.Marshal()
+		if err != nil {
+			return -1
+		}
+		return int64(len(b))
+	}
+	ok := true
+	for _, n := range []int{0, 1, 2, 126, 127, 128, 129, 200, 255, 256, 300, 16383, 16384, 16385, 65535, 65536, 70000} {
+		tx := make([]byte, n)
+		if want := enc(tx); n > 0 && want != protoSize(n) {
+			c.HarnessError("protoSize(%d)=%d but the protobuf encoding has %d bytes", n, protoSize(n), want)
 			return false
+		}
+		if got := types.ComputeProtoSizeForTxs([]types.Tx{tx}); n > 0 && got != protoSize(n) {
+			c.Violation("compute-proto-size-differs-from-encoding", fmt.Sprintf("types.ComputeProtoSizeForTxs reports %d bytes for a %d-byte tx whose encoding in the block's Data message has %d bytes: reaps and pre-checks budget with the wrong size", got, n, protoSize(n)), map[string]interface{}{"stream": "selftest", "tx_len": n})
+			ok = false
 		}
 	}
 	a, b := make([]byte, 5), make([]byte, 200)
-	if got := types.ComputeProtoSizeForTxs([]types.Tx{a, b}); got != protoSize(5)+protoSize(200) {
-		c.HarnessError("per-tx proto sizes are not additive: %d", got)
+	if enc(a, b) != protoSize(5)+protoSize(200) {
+		c.HarnessError("per-tx proto sizes are not additive: %d", enc(a, b))
 		return false
 	}
+	_ = ok // the run goes on: the reap oracle uses protoSize, so a wrong size function also shows up as an over-full reap
 	return true
 }
 
